@@ -8,6 +8,8 @@ def main(argv):
     rep = vlib.Report(PID, 'model_checking', argv)
     vlib.build_harness()
     pp.run(rep, PID, common.pipeline_cfgs(rep, 'values'))
+    # a hot source: notifications carry a context of the producer's own; what the operators attach mid-pipeline must still arrive, on all three kinds
+    pp.run(rep, PID, common.pipeline_cfgs(rep, 'hot'), modes='ctl-unsafe,ctl-safe')
     pp.run(rep, PID, common.pipeline_cfgs(rep, 'faults')[:1], modes='ctl-unsafe')   # the Error raised for a panic carries the context too
     # multi-source and higher-order operators (zip, combine-latest, merge, ...): the context of every output is the one of the arrival that caused it
     parts_multi.run(rep, PID, rep.tier == 'thorough')
